@@ -401,8 +401,7 @@ func (sub *subquery) write(ctx *exprContext, sb *strings.Builder) error {
 			if col.Name != nil {
 				quoteIdentifier(sb, col.Name.Name)
 			} else {
-				span := col.X.Span()
-				quoteIdentifier(sb, ctx.source[span.Start:span.End])
+				quoteIdentifier(sb, implicitColumnName(ctx, col.X))
 			}
 		}
 		sb.WriteString(" FROM ")
@@ -421,8 +420,7 @@ func (sub *subquery) write(ctx *exprContext, sb *strings.Builder) error {
 			if col.Name != nil {
 				quoteIdentifier(sb, col.Name.Name)
 			} else {
-				span := col.X.Span()
-				quoteIdentifier(sb, ctx.source[span.Start:span.End])
+				quoteIdentifier(sb, implicitColumnName(ctx, col.X))
 			}
 		}
 		for i, col := range op.Cols {
@@ -436,8 +434,7 @@ func (sub *subquery) write(ctx *exprContext, sb *strings.Builder) error {
 			if col.Name != nil {
 				quoteIdentifier(sb, col.Name.Name)
 			} else {
-				span := col.X.Span()
-				quoteIdentifier(sb, ctx.source[span.Start:span.End])
+				quoteIdentifier(sb, implicitColumnName(ctx, col.X))
 			}
 		}
 
@@ -527,6 +524,18 @@ func (sub *subquery) write(ctx *exprContext, sb *strings.Builder) error {
 	}
 
 	return nil
+}
+
+// implicitColumnName returns the name of a column
+// for which the query did not give an explicit name.
+// A plain column reference keeps the column's name;
+// anything else is named after its source text.
+func implicitColumnName(ctx *exprContext, x parser.Expr) string {
+	if id, ok := x.(*parser.QualifiedIdent); ok && len(id.Parts) == 1 {
+		return id.Parts[0].Name
+	}
+	span := x.Span()
+	return ctx.source[span.Start:span.End]
 }
 
 func dataSourceSQL(sb *strings.Builder, src parser.TabularDataSource) error {
